@@ -8,8 +8,11 @@ mod lib_api;
 mod lifecycle;
 mod mutate;
 mod props_verify;
+mod props_aux;
+mod props_keys;
 mod props_life;
 mod props_pure;
+mod props_purity;
 mod refmodel;
 
 use ctx::{Ctx, Tier};
@@ -30,6 +33,11 @@ fn runner(id: &str) -> Option<Runner> {
         "C05" => props_pure::run_c05,
         "C06" => props_verify::run_c06,
         "C07" => props_life::run_c07,
+        "C08" => props_keys::run_c08,
+        "C09" => props_purity::run_c09,
+        "C10" => props_aux::run_c10,
+        "C11" => props_keys::run_c11,
+        "C16" => props_keys::run_c16,
         "C12" => props_pure::run_c12,
         "C13" => props_pure::run_c13,
         _ => return None,
@@ -40,6 +48,11 @@ pub fn replay_case(case: &Value) -> Result<Vec<ctx::Viol>, String> {
     match case["engine"].as_str().unwrap_or("") {
         "life" => lifecycle::replay(case),
         "verify" => mutate::replay(case),
+        "c08" => props_keys::c08_replay(case),
+        "c09" => props_purity::c09_replay(case),
+        "c10" => props_aux::aux_replay(case),
+        "c11" => props_keys::c11_replay(case),
+        "c16" => props_keys::c16_replay(case),
         "c12" => props_pure::c12_replay(case),
         "arith" => props_pure::arith_replay(case),
         e => Err(format!("unknown engine {}", e)),
@@ -63,6 +76,14 @@ fn real_main() -> i32 {
                 2
             }
         },
+        Some("c09-pristine") => {
+            props_purity::child_pristine(args[2].parse().unwrap_or(0), args[3].parse().unwrap_or(0));
+            0
+        }
+        Some("c09-worker") => {
+            props_purity::child_worker(args[2].parse().unwrap_or(0), args[3].parse().unwrap_or(0), args[4].parse().unwrap_or(1), &args[5]);
+            0
+        }
         Some("run") => {
             let id = args.get(2).cloned().unwrap_or_default();
             let tier = match args.get(3).map(|s| s.as_str()).or(std::env::var("VERIF_TIER").ok().as_deref().map(|_| "")) {
